@@ -126,7 +126,7 @@ def lyParseCase (c : Json) : R Case := do
            kwBefore := ← lyDictList c "kw_before"
            regs := ← (← arr c "regs").toList.mapM lyParseRegIn
            kwAfter := ← lyDictList c "kw_after"
-           parse := { ctorFiles := ← lyDictList c "ctor_files", ctorTuple := (c.getObjValAs? Bool "ctor_tuple").toOption.getD false, addArg := addArg, cliFiles := cli,
+           parse := { ctorFiles := ← lyDictList c "ctor_files", addArg := addArg, cliFiles := cli,
                       cmd := ← lyParseD (← obj c "cmd") } }
 
 def lyDistinctDests : List RegIn → Bool
